@@ -10,7 +10,7 @@ import time
 
 from hypothesis import strategies as st
 
-from .. import common, conc, fsi, gen, ops, sched, seq
+from .. import common, conc, cov, fsi, gen, ops, sched, seq
 from ..common import call, is_ok
 from ..runner import HarnessError
 from . import c05, c07, c12
@@ -248,6 +248,7 @@ def _child(world, store, d, op, w_out, on_op=None, start_fd=None):
         except Exception:
             pass
     finally:
+        cov.dump()
         os._exit(code)
 
 
